@@ -33,3 +33,30 @@ func VerifC32Parse() {
 	rt.Observe("kind", kind)
 	rt.Assert("parse/no-runtime-error", kind != 2)
 }
+
+// vtokens: source fragments that drive the parser into declarations, parameter lists, classes,
+// member names and constants
+var vtokens = []string{"function", "(", ")", "{", "}", "a", ",", "class", ":", `""`, "1", "_a", "@", "=", " ", "#(", "[", "]", ".", "b"}
+
+// C32 parser on token sequences: every concatenation of 1..3 (thorough 4) fragments from a
+// 20-entry vocabulary (truncated parameter lists, empty names, unbalanced brackets, ...): the
+// constant compiler returns or reports an ordinary error, never a Go runtime error.
+//
+//symgo:harness prop=C32 tier=quick shards=16 timeout=500 ttimeout=3000 tshards=16 bounds=all_sequences_of_1..3_fragments(thorough_4)_from_a_20-entry_vocabulary
+func VerifC32ParseTokens() {
+	n := 1 + rt.Pick("ntokens", 3)
+	if rt.Thorough() {
+		n = 1 + rt.Pick("ntokens4", 4)
+	}
+	src := ""
+	for i := 0; i < n; i++ {
+		if i > 0 {
+			src += " "
+		}
+		src += vtokens[rt.Pick("t"+string(rune('0'+i)), len(vtokens))]
+	}
+	rt.Observe("src", src)
+	kind := rt.TryKind(func() { Constant(src) })
+	rt.Reach("parsed")
+	rt.Assert("parse/tokens-no-runtime-error", kind != 2)
+}
